@@ -4,6 +4,7 @@ import (
 	"bytes"
 	"encoding/binary"
 	"errors"
+	"fmt"
 	"io"
 
 	"golang.org/x/exp/constraints"
@@ -12,6 +13,14 @@ import (
 type BinaryCodec interface {
 	Encode(buf *bytes.Buffer) error
 	Decode(buf *bytes.Buffer) error
+}
+
+// checkPrefix reports an error when n does not fit the length prefix type T.
+func checkPrefix[T constraints.Unsigned](n int) error {
+	if uint64(n) > uint64(^T(0)) {
+		return fmt.Errorf("length %d overflows %d-byte length prefix", n, binary.Size(T(0)))
+	}
+	return nil
 }
 
 type BasicType interface {
@@ -42,6 +51,9 @@ func ReadBasicTypeLE[T BasicType](buf *bytes.Buffer) (T, error) {
 }
 
 func WriteBasicTypeList[T constraints.Unsigned, K BasicType](buf *bytes.Buffer, values []K) error {
+	if err := checkPrefix[T](len(values)); err != nil {
+		return err
+	}
 	if err := binary.Write(buf, binary.BigEndian, T(len(values))); err != nil {
 		return err
 	}
@@ -54,6 +66,9 @@ func WriteBasicTypeList[T constraints.Unsigned, K BasicType](buf *bytes.Buffer, 
 }
 
 func WriteBasicTypeListLE[T constraints.Unsigned, K BasicType](buf *bytes.Buffer, values []K) error {
+	if err := checkPrefix[T](len(values)); err != nil {
+		return err
+	}
 	if err := binary.Write(buf, binary.LittleEndian, T(len(values))); err != nil {
 		return err
 	}
@@ -109,6 +124,9 @@ func ReadBasicTypeListLE[T constraints.Unsigned, K BasicType](buf *bytes.Buffer)
 // ----------------------------
 
 func WriteString[T constraints.Unsigned](buf *bytes.Buffer, s string) error {
+	if err := checkPrefix[T](len(s)); err != nil {
+		return err
+	}
 	if err := binary.Write(buf, binary.BigEndian, T(len(s))); err != nil {
 		return err
 	}
@@ -119,6 +137,9 @@ func WriteString[T constraints.Unsigned](buf *bytes.Buffer, s string) error {
 }
 
 func WriteStringLE[T constraints.Unsigned](buf *bytes.Buffer, s string) error {
+	if err := checkPrefix[T](len(s)); err != nil {
+		return err
+	}
 	if err := binary.Write(buf, binary.LittleEndian, T(len(s))); err != nil {
 		return err
 	}
@@ -199,6 +220,9 @@ func WriteFixedStringList[T constraints.Unsigned](buf *bytes.Buffer, values []st
 }
 
 func WriteFixedStringListWithPadding[T constraints.Unsigned](buf *bytes.Buffer, values []string, fixedLen int, padChar rune, padLeft bool) error {
+	if err := checkPrefix[T](len(values)); err != nil {
+		return err
+	}
 	if err := binary.Write(buf, binary.BigEndian, T(len(values))); err != nil {
 		return err
 	}
@@ -217,6 +241,9 @@ func WriteFixedStringListLE[T constraints.Unsigned](buf *bytes.Buffer, values []
 	return WriteFixedStringListWithPaddingLE[T](buf, values, fixedLen, ' ', false)
 }
 func WriteFixedStringListWithPaddingLE[T constraints.Unsigned](buf *bytes.Buffer, values []string, fixedLen int, padChar rune, padLeft bool) error {
+	if err := checkPrefix[T](len(values)); err != nil {
+		return err
+	}
 	if err := binary.Write(buf, binary.LittleEndian, T(len(values))); err != nil {
 		return err
 	}
@@ -302,12 +329,18 @@ func ReadFixedStringListTrimPaddingLE[T constraints.Unsigned](buf *bytes.Buffer,
 // K: type used for each string's length prefix (e.g., uint8, uint16, uint32)
 func WriteStringListLE[T constraints.Unsigned, K constraints.Unsigned](buf *bytes.Buffer, values []string) error {
 	// Write the list length prefix
+	if err := checkPrefix[T](len(values)); err != nil {
+		return err
+	}
 	if err := binary.Write(buf, binary.LittleEndian, T(len(values))); err != nil {
 		return err
 	}
 
 	// Write each string with its own length prefix
 	for _, s := range values {
+		if err := checkPrefix[K](len(s)); err != nil {
+			return err
+		}
 		if err := binary.Write(buf, binary.LittleEndian, K(len(s))); err != nil {
 			return err
 		}
@@ -318,12 +351,18 @@ func WriteStringListLE[T constraints.Unsigned, K constraints.Unsigned](buf *byte
 
 func WriteStringList[T constraints.Unsigned, K constraints.Unsigned](buf *bytes.Buffer, values []string) error {
 	// Write the list length prefix
+	if err := checkPrefix[T](len(values)); err != nil {
+		return err
+	}
 	if err := binary.Write(buf, binary.BigEndian, T(len(values))); err != nil {
 		return err
 	}
 
 	// Write each string with its own length prefix
 	for _, s := range values {
+		if err := checkPrefix[K](len(s)); err != nil {
+			return err
+		}
 		if err := binary.Write(buf, binary.BigEndian, K(len(s))); err != nil {
 			return err
 		}
@@ -396,6 +435,9 @@ func ReadStringList[T constraints.Unsigned, K constraints.Unsigned](buf *bytes.B
 // Object
 func WriteObjectList[T constraints.Unsigned, K BinaryCodec](buf *bytes.Buffer, values []K) error {
 	// Write the list length prefix
+	if err := checkPrefix[T](len(values)); err != nil {
+		return err
+	}
 	if err := binary.Write(buf, binary.BigEndian, T(len(values))); err != nil {
 		return err
 	}
@@ -430,6 +472,9 @@ func ReadObjectList[T constraints.Unsigned, K BinaryCodec](buf *bytes.Buffer, ne
 // Object
 func WriteObjectListLE[T constraints.Unsigned, K BinaryCodec](buf *bytes.Buffer, values []K) error {
 	// Write the list length prefix
+	if err := checkPrefix[T](len(values)); err != nil {
+		return err
+	}
 	if err := binary.Write(buf, binary.LittleEndian, T(len(values))); err != nil {
 		return err
 	}
